@@ -21,7 +21,7 @@ Require Import Verif.Model.Base Verif.Model.Dec Verif.Model.Level Verif.Model.Mo
 Require Import Verif.Model.Quote Verif.Model.Attrs Verif.Model.Encode Verif.Model.Ansi.
 Require Import Verif.Proofs.EscP Verif.Proofs.SortP Verif.Proofs.AnsiP.
 Require Import Verif.Corr.C01 Verif.Corr.Enc.
-Require Verif.Gen.Escapes Verif.Gen.Colors Verif.Proofs.GenColorP Verif.Gen.Layout Verif.Gen.Tables Verif.Model.LayoutRef Verif.Proofs.GenLayoutP.
+Require Verif.Gen.LevelNames Verif.Gen.Escapes Verif.Gen.Colors Verif.Proofs.GenColorP Verif.Gen.Layout Verif.Gen.Tables Verif.Model.LayoutRef Verif.Proofs.GenLayoutP.
 
 (* strconv.IsPrint on ASCII; the theorems hold for every such function *)
 Definition isprint_std (isprint : Z -> bool) : Prop :=
@@ -250,6 +250,17 @@ Theorem C06_gen_no_name_no_part : forall fa fw pc noColor json buf,
   Layout.print_logger_name fa fw [] pc noColor json buf = Some buf.
 Proof. intros. rewrite GenLayoutP.gen_print_logger_name. reflexivity. Qed.
 Print Assumptions C06_gen_no_name_no_part.
+
+(* THE SEVERITY PART.  Entry.printSeverity, translated from the source on every run over the translations of
+   Level.String and Level.ShortTag (tied to the model by C17_gen_level_string / C17_gen_short_tag): in the plain formats
+   the member `level` holding the level's NAME and the member separator; in colour mode the short tag of the CONFIGURED
+   width (levelOutputWidth) between '[' and ']' in the record's two colours, followed by ONE blank. *)
+Theorem C06_gen_print_severity : forall fa fw fr tags l2s width pc noColor json lvl clr bg buf,
+  Layout.print_severity fa fw fr tags l2s width pc noColor json lvl clr bg buf =
+  LayoutRef.print_severity_ref fa fw fr (LevelNames.level_string l2s lvl) (LevelNames.short_tag tags l2s lvl width)
+    noColor json clr bg buf.
+Proof. exact GenLayoutP.gen_print_severity. Qed.
+Print Assumptions C06_gen_print_severity.
 
 Definition ex_isprint (r : Z) : bool := (32 <=? r) && (r <? 127).
 Definition ex_cfg : ecfg :=
